@@ -174,9 +174,12 @@ Put2(c) ==
        ELSE Conflict(c) /\ UNCHANGED kvvars
     /\ UNCHANGED <<req, nops, next, manvars, nrvars, nrpipe>>
 
+NoReq == [op |-> "none", path |-> PathOrder[1], val |-> None, ver |-> 0]
+NoRes == [status |-> 0, val |-> None, ver |-> 0]
 Ret(c) ==
     /\ pc[c] = "ret" /\ pc' = [pc EXCEPT ![c] = "idle"]
-    /\ UNCHANGED <<kvvars, req, res, wins, nops, next, manvars, nrvars, nrpipe>>
+    /\ req' = [req EXCEPT ![c] = NoReq] /\ res' = [res EXCEPT ![c] = NoRes]   \* the handler's locals are gone
+    /\ UNCHANGED <<kvvars, wins, nops, next, manvars, nrvars, nrpipe>>
 
 \* ---- somebody else works on the keys (consul kv put / delete, another tool)
 ExtEdit(p, v) ==
